@@ -245,3 +245,6 @@ func (f *Fed) Run(c Case) *Obs {
 	o.Reqs, o.Calls, o.Other = f.Fakes.Reqs, f.Fakes.Calls, f.Fakes.Other
 	return o
 }
+
+// SetPlanner installs the planner used for the next requests (Engine B histories).
+func (f *Fed) SetPlanner(p planner.Planner) { f.sp.inner = p }
